@@ -10,6 +10,8 @@ CONSTANTS
   WithNone = TRUE
   UpUsages = @UPU@
   DownUsages = @DNU@
+  NoUser = NoUser
+  Absent = Absent
   AbsentReadsZero = @ARZ@
   RejectNonPositiveRate = @RNR@
 INVARIANTS TypeOK Persist ConsumersTotal
